@@ -29,9 +29,9 @@ def run(ctx, rep):
     try:
         rf, tab = _codecs.reader(F)
         w1f, rows1 = _codecs.w1_rows(F, text=True)
-        n1 = _codecs.normalise(rows1)
+        n1 = _codecs.normalise(rows1, F)
         w2f, rows2 = _codecs.w2_rows(F)
-        n2 = _codecs.normalise(rows2)
+        n2 = _codecs.normalise(rows2, F)
     except codec.ShapeChanged as e:
         rep.ob("C18.roundtrip", "extract codec tables", "undecided", "ANCHOR-SHAPE-CHANGED: %s" % e, None)
         return
